@@ -32,10 +32,20 @@ use barter_execution::{
 };
 use barter_instrument::{
     Side, Underlying,
-    asset::{AssetIndex, ExchangeAsset, QuoteAsset, name::AssetNameInternal},
+    asset::{Asset, AssetIndex, ExchangeAsset, QuoteAsset, name::AssetNameInternal},
     exchange::ExchangeId,
     index::IndexedInstruments,
-    instrument::{Instrument, InstrumentIndex, name::InstrumentNameInternal},
+    instrument::{
+        Instrument, InstrumentIndex,
+        kind::{
+            InstrumentKind,
+            future::FutureContract,
+            option::{OptionContract, OptionExercise, OptionKind},
+            perpetual::PerpetualContract,
+        },
+        name::InstrumentNameInternal,
+        quote::InstrumentQuoteAsset,
+    },
 };
 use barter_integration::snapshot::Snapshot;
 use chrono::{DateTime, TimeZone, Utc};
@@ -44,10 +54,18 @@ use serde_json::{Value, json};
 use smol_str::SmolStr;
 use vh_common::*;
 
-const T0: i64 = 1_700_000_000_000;
+/// all times are nanoseconds since the epoch (chrono's resolution), exact in the Coq case
+const T0: i64 = 1_700_000_000_000_000_000;
+const MS: i64 = 1_000_000;
+const SEC: i64 = 1_000 * MS;
+const DAY: i64 = 86_400 * SEC;
 
-fn time_of(ms: i64) -> DateTime<Utc> {
-    Utc.timestamp_millis_opt(ms).unwrap()
+fn nanos(t: DateTime<Utc>) -> i64 {
+    t.timestamp_nanos_opt().expect("time within the i64 ns range")
+}
+
+fn time_of(ns: i64) -> DateTime<Utc> {
+    Utc.timestamp_nanos(ns)
 }
 
 // ---- observation printers ----------------------------------------------------------------------
@@ -71,8 +89,8 @@ fn ds_coq(s: &DataSetSummary) -> String {
 fn gen_coq(g: &TearSheetGenerator) -> String {
     format!(
         "(mkGenObs {} {} {} {} {})",
-        z(g.time_engine_start.timestamp_millis() as i128),
-        z(g.time_engine_now.timestamp_millis() as i128),
+        z(nanos(g.time_engine_start) as i128),
+        z(nanos(g.time_engine_now) as i128),
         dec_q(g.pnl_returns.pnl_raw),
         ds_coq(&g.pnl_returns.total),
         ds_coq(&g.pnl_returns.losses),
@@ -144,15 +162,17 @@ impl Pos {
     fn exited<K>(&self, key: K) -> PositionExited<QuoteAsset, K> {
         PositionExited {
             instrument: key,
-            side: if self.pnl.is_sign_negative() { Side::Sell } else { Side::Buy },
+            // fields the statistics must NOT read carry decoys: a side unrelated to the sign of
+            // the PnL, large fees, an entry time far from (even after) the exit time, 0..2 trade ids
+            side: if (self.time / 7) % 2 == 0 { Side::Sell } else { Side::Buy },
             price_entry_average: self.price,
             quantity_abs_max: self.qty,
             pnl_realised: self.pnl,
-            fees_enter: AssetFees::default(),
-            fees_exit: AssetFees::default(),
-            time_enter: time_of(self.time - 1),
+            fees_enter: AssetFees::quote_fees(Decimal::new(77_777, 2)),
+            fees_exit: AssetFees::quote_fees(Decimal::new(33_333, 1)),
+            time_enter: time_of(if self.time % 2 == 0 { self.time + 3 * DAY } else { T0 - 400 * DAY }),
             time_exit: time_of(self.time),
-            trades: vec![TradeId(SmolStr::new("t"))],
+            trades: (0..(self.time.rem_euclid(3))).map(|i| TradeId(SmolStr::new(format!("t{i}")))).collect(),
         }
     }
     fn of_exited<K>(p: &PositionExited<QuoteAsset, K>) -> Pos {
@@ -160,7 +180,7 @@ impl Pos {
             pnl: p.pnl_realised,
             price: p.price_entry_average,
             qty: p.quantity_abs_max,
-            time: p.time_exit.timestamp_millis(),
+            time: nanos(p.time_exit),
         }
     }
     /// the Coq term, with the return the public calculate_pnl_return gives for it
@@ -315,25 +335,62 @@ fn emit_return(em: &mut Emitter, stream: &'static str, pnl: Decimal, price: Deci
 
 // ---- trading summary ---------------------------------------------------------------------------------------
 
-/// catalogue of instruments a summary case picks from: (exchange, internal name, exchange name, base, quote)
-const CATALOGUE: [(ExchangeId, &str, &str, &str, &str); 6] = [
-    (ExchangeId::BinanceSpot, "binance_spot_btc_usdt", "BTCUSDT", "btc", "usdt"),
-    (ExchangeId::BinanceSpot, "binance_spot_eth_usdt", "ETHUSDT", "eth", "usdt"),
-    (ExchangeId::BinanceSpot, "binance_spot_eth_btc", "ETHBTC", "eth", "btc"),
-    (ExchangeId::Kraken, "kraken_btc_usdt", "XBT/USDT", "btc", "usdt"),
-    (ExchangeId::Okx, "okx_sol_usdt", "SOL-USDT", "sol", "usdt"),
-    (ExchangeId::Kraken, "kraken_eth_btc", "ETH/XBT", "eth", "btc"),
+/// catalogue of instruments a summary case picks from: (exchange, internal name, exchange name,
+/// base, quote, kind).  Three venues incl. Mock / Other (enum order differs from name order),
+/// names sharing a prefix, derivatives with contract sizes 0.001 / 0.01 / 100 settled in the
+/// quote asset and in another asset.
+/// kind: 0 spot, 1 perpetual (settled in quote), 2 perpetual (settled in usdc), 3 future, 4 option
+const CATALOGUE: [(ExchangeId, &str, &str, &str, &str, u8); 12] = [
+    (ExchangeId::BinanceSpot, "binance_spot_btc_usdt", "BTCUSDT", "btc", "usdt", 0),
+    (ExchangeId::BinanceSpot, "binance_spot_eth_usdt", "ETHUSDT", "eth", "usdt", 0),
+    (ExchangeId::BinanceSpot, "binance_spot_eth_btc", "ETHBTC", "eth", "btc", 0),
+    (ExchangeId::Kraken, "kraken_btc_usdt", "XBT/USDT", "btc", "usdt", 0),
+    (ExchangeId::Okx, "okx_sol_usdt", "SOL-USDT", "sol", "usdt", 0),
+    (ExchangeId::Kraken, "kraken_eth_btc", "ETH/XBT", "eth", "btc", 0),
+    (ExchangeId::Mock, "mock_btc_usdt", "BTC_USDT", "btc", "usdt", 0),
+    (ExchangeId::Other, "other_btc_usd", "BTCUSD", "btc", "usd", 0),
+    (ExchangeId::Other, "other_btc_usd_perp", "BTCUSD-PERP", "btc", "usd", 1),
+    (ExchangeId::BinanceSpot, "binance_spot_btc_usdt_perp", "BTCUSDT_PERP", "btc", "usdt", 2),
+    (ExchangeId::Mock, "mock_btc_usdt_fut", "BTC_USDT_240628", "btc", "usdt", 3),
+    (ExchangeId::Okx, "okx_sol_usdt_call", "SOL-USDT-C", "sol", "usdt", 4),
 ];
 
 fn build_instruments(picks: &[usize]) -> IndexedInstruments {
     let mut bld = IndexedInstruments::builder();
     for &i in picks {
-        let (ex, name, name_ex, base, quote) = CATALOGUE[i % CATALOGUE.len()];
-        bld = bld.add_instrument(Instrument::spot(
+        let (ex, name, name_ex, base, quote, kind) = CATALOGUE[i % CATALOGUE.len()];
+        let expiry = time_of(T0 + 90 * DAY);
+        let kind = match kind {
+            0 => InstrumentKind::Spot,
+            1 => InstrumentKind::Perpetual(PerpetualContract {
+                contract_size: Decimal::new(1, 3),
+                settlement_asset: Asset::from(quote),
+            }),
+            2 => InstrumentKind::Perpetual(PerpetualContract {
+                contract_size: Decimal::new(100, 0),
+                settlement_asset: Asset::from("usdc"),
+            }),
+            3 => InstrumentKind::Future(FutureContract {
+                contract_size: Decimal::new(1, 2),
+                settlement_asset: Asset::from(quote),
+                expiry,
+            }),
+            _ => InstrumentKind::Option(OptionContract {
+                contract_size: Decimal::new(100, 0),
+                settlement_asset: Asset::from("usdc"),
+                kind: OptionKind::Call,
+                exercise: OptionExercise::European,
+                expiry,
+                strike: Decimal::new(150, 0),
+            }),
+        };
+        bld = bld.add_instrument(Instrument::new(
             ex,
             name,
             name_ex,
             Underlying::new(base, quote),
+            InstrumentQuoteAsset::UnderlyingQuote,
+            kind,
             None,
         ));
     }
@@ -397,8 +454,8 @@ fn summary_coq(sum: &TradingSummary<Daily>) -> String {
         .collect();
     format!(
         "(mkSumObs {} {} {} {})",
-        z(sum.time_engine_start.timestamp_millis() as i128),
-        z(sum.time_engine_end.timestamp_millis() as i128),
+        z(nanos(sum.time_engine_start) as i128),
+        z(nanos(sum.time_engine_end) as i128),
         list(&insts),
         list(&assets)
     )
@@ -494,6 +551,7 @@ fn emit_summary(
     picks: &[usize],
     balances: &[(usize, Decimal, Decimal)],
     ops: &[Op],
+    extra: &[String],
 ) {
     let state = build_state(picks, balances);
     let inst_names: Vec<String> = state.instruments.0.keys().map(|k| k.0.to_string()).collect();
@@ -505,6 +563,8 @@ fn emit_summary(
         .map(|(k, st)| pair(&s(&asset_key(k)), &bal_coq(&st.statistics.balance_now)))
         .collect();
     let mut tags = vec![format!("summary_mode{mode}"), format!("summary_insts_{}", inst_names.len())];
+    tags.extend(extra.iter().cloned());
+    tags.push(format!("summary_assets_{}", if asset_keys.len() >= 3 { "3+" } else { "lt3" }));
     let mut coq_ops: Vec<String> = vec![];
     let mut steps: Vec<String> = vec![];
     let s0;
@@ -753,7 +813,7 @@ fn exec_input(em: &mut Emitter, stream: &'static str, inp: &Value) {
                 .map(|x| (x[0].as_u64().unwrap() as usize, json_dec(&x[1]), json_dec(&x[2])))
                 .collect();
             let ops: Vec<Op> = inp["ops"].as_array().unwrap().iter().map(Op::from_json).collect();
-            emit_summary(em, stream, inp["mode"].as_u64().unwrap_or(0), &picks, &balances, &ops);
+            emit_summary(em, stream, inp["mode"].as_u64().unwrap_or(0), &picks, &balances, &ops, &[]);
         }
         k => panic!("unknown input kind {k}"),
     }
@@ -798,23 +858,128 @@ fn gen_pos(r: &mut Rng, kind: u64, time: i64) -> Pos {
     Pos { pnl, price, qty, time }
 }
 
-fn gen_history(r: &mut Rng, len: usize, weights: (u64, u64, u64)) -> Vec<Pos> {
-    let mut t = T0;
+/// exit times of `n` consecutive closed positions, in one of ten shapes (ns resolution):
+/// the tag names the shape
+fn gen_times(r: &mut Rng, n: usize) -> (Vec<i64>, &'static str) {
+    let mut v = Vec::with_capacity(n);
+    let shape = r.below(10);
+    let base = T0 + r.range(1, 30) * DAY + r.range(0, 999_999_999);
+    let tag = match shape {
+        0 => {
+            // days apart, increasing
+            let mut t = T0;
+            for _ in 0..n {
+                t += r.range(1, DAY);
+                v.push(t);
+            }
+            "times_increasing_days"
+        }
+        1 => {
+            // all exits at one timestamp
+            v.resize(n, base);
+            "times_all_tied"
+        }
+        2 => {
+            // clusters 1 ns .. 999 us apart, with exact ties inside
+            let mut t = base;
+            for _ in 0..n {
+                let any = r.range(1, 999_999);
+                t += *r.pick(&[0, 0, 1, 1, 999, 1_000, 999_999, any]);
+                v.push(t);
+            }
+            "times_sub_ms_cluster"
+        }
+        3 => {
+            // around a millisecond / second boundary, in any order
+            let b = (base / SEC) * SEC;
+            for _ in 0..n {
+                v.push(b + *r.pick(&[-1, 0, 1, MS - 1, MS, MS + 1, -MS, 999 * MS + 999_999]));
+            }
+            "times_ms_boundary"
+        }
+        4 => {
+            // strictly decreasing
+            let mut t = base + n as i64 * DAY;
+            for _ in 0..n {
+                t -= r.range(1, DAY);
+                v.push(t);
+            }
+            "times_decreasing"
+        }
+        5 => {
+            // unordered, some before the generator's start
+            for _ in 0..n {
+                v.push(T0 + r.range(-3600 * SEC, 30 * DAY));
+            }
+            "times_unordered"
+        }
+        6 => {
+            // the first exit(s) exactly AT the start time, then ties and small steps
+            let mut t = T0;
+            for i in 0..n {
+                if i > 0 {
+                    t += *r.pick(&[0, 0, 1, MS, DAY]);
+                }
+                v.push(t);
+            }
+            "times_from_start"
+        }
+        7 => {
+            // every exit BEFORE the start time
+            for _ in 0..n {
+                v.push(T0 - r.range(1, 400 * DAY));
+            }
+            "times_before_start"
+        }
+        8 => {
+            // increasing with one late arrival (an older exit delivered last or in the middle)
+            let mut t = T0;
+            for _ in 0..n {
+                t += r.range(1, DAY);
+                v.push(t);
+            }
+            if n >= 2 {
+                let at = 1 + r.below(n as u64 - 1) as usize;
+                v[at] = v[0] - r.range(0, 5 * SEC);
+            }
+            "times_late_arrival"
+        }
+        _ => {
+            // far past / far future mixed with the present
+            for _ in 0..n {
+                v.push(*r.pick(&[T0, T0 - 10_000 * DAY, T0 + 10_000 * DAY, base, 1, base + 1]));
+            }
+            "times_far"
+        }
+    };
+    (v, tag)
+}
+
+fn gen_history(r: &mut Rng, len: usize, weights: (u64, u64, u64)) -> (Vec<Pos>, &'static str) {
+    let (times, tag) = gen_times(r, len);
     let total = weights.0 + weights.1 + weights.2;
-    (0..len)
-        .map(|_| {
-            t += r.range(0, 86_400_000);
-            let x = r.below(total);
-            let kind = if x < weights.0 {
-                0
-            } else if x < weights.0 + weights.1 {
-                1
-            } else {
-                2
-            };
-            gen_pos(r, kind, t)
-        })
-        .collect()
+    let mut ps: Vec<Pos> = vec![];
+    for t in times {
+        if !ps.is_empty() && r.chance(1, 8) {
+            // the very same closed position delivered again (same values, same or later time)
+            let mut again = ps[ps.len() - 1].clone();
+            if r.chance(1, 2) {
+                again.time = t;
+            }
+            ps.push(again);
+            continue;
+        }
+        let x = r.below(total);
+        let kind = if x < weights.0 {
+            0
+        } else if x < weights.0 + weights.1 {
+            1
+        } else {
+            2
+        };
+        ps.push(gen_pos(r, kind, t));
+    }
+    (ps, tag)
 }
 
 fn table(em: &mut Emitter, r: &mut Rng) {
@@ -826,7 +991,13 @@ fn table(em: &mut Emitter, r: &mut Rng) {
             let mut c = code;
             let mut ps = vec![];
             for k in 0..len {
-                ps.push(gen_pos(r, c % 3, T0 + 1000 * (k as i64 + 1)));
+                // alternate: strictly later / tied with the previous exit / at the start time
+                let t = match (code + k as u64) % 3 {
+                    0 => T0 + SEC * (k as i64 + 1),
+                    1 => T0 + SEC,
+                    _ => T0,
+                };
+                ps.push(gen_pos(r, c % 3, t));
                 c /= 3;
             }
             emit_sheet(em, "table", &ps, &["pattern"]);
@@ -860,47 +1031,89 @@ fn table(em: &mut Emitter, r: &mut Rng) {
     }
 }
 
-fn gen_summary_ops(r: &mut Rng, mode: u64, n_inst: usize, n_ops: usize, names: &[String], akeys: &[String]) -> Vec<Op> {
-    let mut t = T0;
+/// what kind of closed positions an instrument gets in a summary case
+/// 0 mixed, 1 wins only, 2 losses only (break-even allowed), 3 break-even only, 4 no history
+fn pos_kind_for(r: &mut Rng, personality: u64) -> Option<u64> {
+    match personality {
+        0 => Some(r.below(3)),
+        1 => Some(if r.chance(1, 4) { 2 } else { 0 }),
+        2 => Some(if r.chance(1, 4) { 2 } else { 1 }),
+        3 => Some(2),
+        _ => None,
+    }
+}
+
+fn gen_summary_ops(
+    r: &mut Rng,
+    mode: u64,
+    n_inst: usize,
+    n_ops: usize,
+    names: &[String],
+    akeys: &[String],
+) -> (Vec<Op>, Vec<String>) {
     let mut ops = vec![];
     let n_assets = akeys.len().max(1);
-    for _ in 0..n_ops {
-        t += r.range(0, 3_600_000);
-        let inst = r.below(n_inst as u64) as usize;
+    // exit times: one of the shapes of gen_times over the whole update sequence, so that exits of
+    // different instruments (and balance / clock updates) interleave out of order, tie, fall at
+    // or before the start time and differ by single nanoseconds
+    let (times, time_tag) = gen_times(r, n_ops);
+    // balances of the engine state need non-decreasing times per asset (AssetState drops stale ones)
+    let mut t_bal = T0;
+    let personalities: Vec<u64> = (0..n_inst).map(|_| r.below(5)).collect();
+    let mut tags = vec![format!("summary_{time_tag}")];
+    for p in &personalities {
+        tags.push(
+            ["inst_mixed", "inst_wins_only", "inst_losses_only", "inst_break_even_only", "inst_no_history"]
+                [*p as usize]
+                .to_string(),
+        );
+    }
+    // at least one instrument with a history unless there is only one and it drew "none"
+    for t in times {
+        let mut inst = r.below(n_inst as u64) as usize;
+        if personalities[inst] == 4 {
+            // an instrument without history: redirect to another one if any has a history
+            if let Some(j) = (0..n_inst).find(|j| personalities[*j] != 4) {
+                inst = j;
+            }
+        }
+        let kind = pos_kind_for(r, personalities[inst]);
         if mode == 0 {
-            let kind = r.below(3);
-            match r.below(10) {
-                0..=3 => ops.push(Op::PosIdx(inst, gen_pos(r, kind, t))),
-                4..=6 => ops.push(Op::PosName(names[inst].clone(), gen_pos(r, kind, t))),
-                7 => ops.push(Op::BalIdx(
+            match (r.below(10), kind) {
+                (0..=3, Some(k)) => ops.push(Op::PosIdx(inst, gen_pos(r, k, t))),
+                (4..=6, Some(k)) => ops.push(Op::PosName(names[inst].clone(), gen_pos(r, k, t))),
+                (7, _) | (0..=3, None) => ops.push(Op::BalIdx(
                     r.below(n_assets as u64) as usize,
                     Decimal::new(r.range(0, 100_000), 2),
                     Decimal::new(r.range(0, 100_000), 2),
-                    t,
+                    t + *r.pick(&[0, 1, -1, DAY, -DAY]),
                 )),
-                8 => ops.push(Op::BalKey(
+                (8, _) | (4..=6, None) => ops.push(Op::BalKey(
                     r.pick(akeys).clone(),
                     Decimal::new(r.range(0, 100_000), 2),
                     Decimal::new(r.range(0, 100_000), 2),
-                    t,
+                    t + *r.pick(&[0, 1, -1, DAY, -DAY]),
                 )),
-                _ => ops.push(Op::Time(t + r.range(-7_200_000, 7_200_000))),
+                _ => ops.push(Op::Time(t + *r.pick(&[0, 1, -1, 2 * 3600 * SEC, -2 * 3600 * SEC]))),
             }
-        } else if r.chance(1, 5) {
+        } else if kind.is_none() || r.chance(1, 5) {
+            t_bal += *r.pick(&[0, 1, MS, DAY]);
             ops.push(Op::BalIdx(
                 r.below(n_assets as u64) as usize,
                 Decimal::new(r.range(0, 100_000), 2),
                 Decimal::new(r.range(0, 100_000), 2),
-                t,
+                t_bal,
             ));
         } else {
-            // a round trip (open, optional increase / partial reduce, close or flip) on one instrument
+            // a round trip (open, optional increase / partial reduce, close or flip) on one
+            // instrument; the fills are 0 ns .. 1 ms apart, the exit lands on `t`
+            let k = kind.unwrap_or(0);
             let (pm, ps) = *r.pick(&PRICES);
             let entry = Decimal::new(pm, ps);
             let (qm, qs) = *r.pick(&QTYS);
             let qty = Decimal::new(qm, qs);
             let long = r.chance(1, 2);
-            let fee_rate = *r.pick(&[Decimal::ZERO, Decimal::new(1, 3)]);
+            let fee_rate = if k == 2 { Decimal::ZERO } else { *r.pick(&[Decimal::ZERO, Decimal::new(1, 3)]) };
             let mut trs = vec![];
             let mk = |buy: bool, price: Decimal, q: Decimal, time: i64| Tr {
                 buy,
@@ -909,40 +1122,47 @@ fn gen_summary_ops(r: &mut Rng, mode: u64, n_inst: usize, n_ops: usize, names: &
                 fee: (price * q * fee_rate).round_dp(8),
                 time,
             };
-            trs.push(mk(long, entry, qty, t));
+            let step = *r.pick(&[0i64, 1, 999, MS]);
+            trs.push(mk(long, entry, qty, t - 3 * step));
             let mut open = qty;
-            if r.chance(1, 3) {
+            if k != 2 && r.chance(1, 3) {
                 let add = qty * Decimal::new(5, 1);
-                trs.push(mk(long, entry * Decimal::new(101, 2), add, t + 1));
+                trs.push(mk(long, entry * Decimal::new(101, 2), add, t - 2 * step));
                 open += add;
             }
-            if r.chance(1, 3) {
+            if k != 2 && r.chance(1, 3) {
                 let cut = (open * Decimal::new(25, 2)).round_dp(6);
                 if !cut.is_zero() {
-                    trs.push(mk(!long, entry * Decimal::new(99, 2), cut, t + 2));
+                    trs.push(mk(!long, entry * Decimal::new(99, 2), cut, t - step));
                     open -= cut;
                 }
             }
-            // exit price: up, down or flat relative to entry
-            let exit = match r.below(4) {
-                0 => entry,
-                1 => entry * Decimal::new(r.range(101, 150), 2),
-                2 => entry * Decimal::new(r.range(50, 99), 2),
-                _ => (entry * Decimal::new(r.range(900, 1100), 3)).round_dp(6),
+            // exit price by the wanted outcome: win, loss, break-even (flat, no fees)
+            let up = Decimal::new(r.range(101, 150), 2);
+            let down = Decimal::new(r.range(50, 99), 2);
+            let exit = match (k, long) {
+                (2, _) => entry,
+                (0, true) | (1, false) => entry * up,
+                _ => entry * down,
             };
-            let close_qty = if r.chance(1, 6) { open * Decimal::new(2, 0) } else { open }; // flip sometimes
-            trs.push(mk(!long, exit, close_qty, t + 3));
+            let flip = r.chance(1, 5);
+            let close_qty = if flip { open * Decimal::new(2, 0) } else { open };
+            trs.push(mk(!long, exit, close_qty, t));
+            if flip && r.chance(2, 3) {
+                // close the flipped position at the SAME timestamp (two exits on one stamp)
+                trs.push(mk(long, exit, open, t));
+            }
             ops.push(Op::Trades(inst, trs));
         }
     }
-    ops
+    (ops, tags)
 }
 
 fn gen_summary(em: &mut Emitter, r: &mut Rng, stream: &'static str, mode: u64, max_ops: u64, adversarial: bool) {
-    // 1..=4 distinct catalogue entries in random order
+    // 1..=5 distinct catalogue entries in random order, three or more most of the time
     let mut all: Vec<usize> = (0..CATALOGUE.len()).collect();
     r.shuffle(&mut all);
-    let n_inst = 1 + r.below(4) as usize;
+    let n_inst = if r.chance(2, 3) { 3 + r.below(3) as usize } else { 1 + r.below(2) as usize };
     let picks: Vec<usize> = all[..n_inst].to_vec();
     let probe = build_state(&picks, &[]);
     let names: Vec<String> = probe.instruments.0.keys().map(|k| k.0.to_string()).collect();
@@ -954,10 +1174,10 @@ fn gen_summary(em: &mut Emitter, r: &mut Rng, stream: &'static str, mode: u64, m
         }
     }
     let n_ops = 1 + r.below(max_ops) as usize;
-    let mut ops = gen_summary_ops(r, mode, n_inst, n_ops, &names, &akeys);
+    let (mut ops, tags) = gen_summary_ops(r, mode, n_inst, n_ops, &names, &akeys);
     if adversarial {
         // an update addressed to a key that does not exist, somewhere in the sequence
-        let t = T0 + 5;
+        let t = T0 + 5 * SEC;
         let bad = match (mode, r.below(4)) {
             (0, 0) => Op::PosIdx(n_inst + r.below(2) as usize, gen_pos(r, 0, t)),
             (0, 1) => Op::PosName("no_such_instrument".into(), gen_pos(r, 1, t)),
@@ -968,7 +1188,7 @@ fn gen_summary(em: &mut Emitter, r: &mut Rng, stream: &'static str, mode: u64, m
         let at = r.below(ops.len() as u64 + 1) as usize;
         ops.insert(at, bad);
     }
-    emit_summary(em, stream, mode, &picks, &balances, &ops);
+    emit_summary(em, stream, mode, &picks, &balances, &ops, &tags);
 }
 
 fn main() {
@@ -996,8 +1216,8 @@ fn main() {
                     4 => ((0, 5, 2), "hist_no_wins"),
                     _ => ((1, 1, 6), "hist_break_even_heavy"),
                 };
-                let ps = gen_history(&mut r, len, w);
-                emit_sheet(&mut em, "random", &ps, &[fl]);
+                let (ps, tt) = gen_history(&mut r, len, w);
+                emit_sheet(&mut em, "random", &ps, &[fl, tt]);
             }
             for _ in 0..n_sum0 {
                 gen_summary(&mut em, &mut r, "random", 0, max_ops, false);
@@ -1010,7 +1230,7 @@ fn main() {
                     0 => {
                         // exit times out of order / equal, a zero-cost position at the end
                         let len = 2 + r.below(6) as usize;
-                        let mut ps = gen_history(&mut r, len, (3, 3, 1));
+                        let (mut ps, _) = gen_history(&mut r, len, (3, 3, 1));
                         ps.reverse();
                         if r.chance(1, 2) {
                             ps.push(Pos {
@@ -1029,14 +1249,14 @@ fn main() {
                         for j in 0..k {
                             let cost_p = Decimal::new(100, 0);
                             let v = Decimal::new(r.range(1, 500), 1);
-                            ps.push(Pos { pnl: v, price: cost_p, qty: Decimal::ONE, time: T0 + 10 * j });
-                            ps.push(Pos { pnl: -v, price: cost_p, qty: Decimal::ONE, time: T0 + 10 * j + 5 });
+                            ps.push(Pos { pnl: v, price: cost_p, qty: Decimal::ONE, time: T0 + 10 * SEC * j });
+                            ps.push(Pos { pnl: -v, price: cost_p, qty: Decimal::ONE, time: T0 + 10 * SEC * j + 5 });
                         }
                         ps.push(Pos {
                             pnl: Decimal::new(1, 4),
                             price: Decimal::new(70000, 0),
                             qty: Decimal::ONE,
-                            time: T0 + 1000,
+                            time: T0 + DAY,
                         });
                         emit_sheet(&mut em, "adversarial", &ps, &["adv_cancelling"]);
                     }
